@@ -74,7 +74,9 @@ NAMES_SOURCE = (
     "Zone\tNOSLASH\t3:07\t-\tLMT\t1985\n\t\t\t3:00\t-\tMSK\n"
     "Link\tTest/New_Town\tTest/Newtown\n"
     "Link\tTest/Other\tTest/Alias\n"
-    "Link\tTest/New-Town\tTest/NewTownAlias\n")
+    "Link\tTest/New-Town\tTest/NewTownAlias\n"
+    "Link\tTest/Other\tTest/Twice\n"
+    "Link\tNOSLASH\tTest/Twice\n")
 
 
 def check_compiled(ctx, label, src, scope, work, thorough, nt, start_year=2000, until_year=2050):
